@@ -86,7 +86,7 @@ type spec struct {
 // a fragment: the consecutive statements of one block from the one whose text starts with First to
 // the one whose text starts with Last; the variables it reads become parameters, Results are returned
 type fragSpec struct {
-	First, Last string // several accepted spellings of the same statement are separated by `|` (e.g. "x := |var x T")
+	First, Last string   // several accepted spellings of the same statement are separated by `|` (e.g. "x := |var x T")
 	Params      []string // "name type" in Go syntax
 	Results     []string // names of parameters / variables returned, in order
 	EarlyReturn string   // text of the return statements inside the fragment that mean "the fragment ends here"
@@ -1371,16 +1371,75 @@ func prepareFile(fset *token.FileSet, f *ast.File) {
 			astnormKeepConst[c.Name] = true
 		}
 	}
-	NormalizeFile(fset, f, NormOpts{InlineConsts: true})
+	// … and: `x = x op e` is read as `x op= e`; the operands of a chain of && (of ||) whose operands are all pure and
+	// total are put in a fixed order (astnorm_gen.go); `x += 1` / `x -= 1` are read as `x++` / `x--` (the spelling the
+	// reference tree uses, so that loops counted by `i += 1` translate like loops counted by `i++`)
+	NormalizeFile(fset, f, NormOpts{InlineConsts: true, SortBool: true, OpAssign: true})
+	incDecForm(f)
+}
+
+// incDecForm rewrites every statement `x += 1` / `x -= 1` (x an identifier or a chain of field selections) as x++ / x--
+func incDecForm(f *ast.File) {
+	conv := func(s ast.Stmt) ast.Stmt {
+		as, ok := s.(*ast.AssignStmt)
+		if !ok || len(as.Lhs) != 1 || len(as.Rhs) != 1 || (as.Tok != token.ADD_ASSIGN && as.Tok != token.SUB_ASSIGN) || !isPureLvalue(as.Lhs[0]) {
+			return s
+		}
+		if bl, ok := as.Rhs[0].(*ast.BasicLit); !ok || bl.Kind != token.INT || bl.Value != "1" {
+			return s
+		}
+		tok := token.INC
+		if as.Tok == token.SUB_ASSIGN {
+			tok = token.DEC
+		}
+		return &ast.IncDecStmt{X: as.Lhs[0], TokPos: as.TokPos, Tok: tok}
+	}
+	list := func(l []ast.Stmt) {
+		for i := range l {
+			l[i] = conv(l[i])
+		}
+	}
+	ast.Inspect(f, func(n ast.Node) bool {
+		switch x := n.(type) {
+		case *ast.BlockStmt:
+			list(x.List)
+		case *ast.CaseClause:
+			list(x.Body)
+		case *ast.CommClause:
+			list(x.Body)
+		case *ast.ForStmt:
+			if x.Init != nil {
+				x.Init = conv(x.Init)
+			}
+			if x.Post != nil {
+				x.Post = conv(x.Post)
+			}
+		case *ast.LabeledStmt:
+			x.Stmt = conv(x.Stmt)
+		}
+		return true
+	})
 }
 
 // applyBind renames the local variables named in sp.Bind (by canonical position) to the names the spec uses
+func bindKey(sp spec) string { return sp.File + ":" + sp.Recv + "." + sp.Func }
+
 func applyBind(fd *ast.FuncDecl, sp spec) {
-	if len(sp.Bind) == 0 {
+	table := sp.Bind
+	if len(table) == 0 {
+		table = bindTables[bindKey(sp)] // bind_gen.go: the names of ALL locals of every translated function, as of the reference tree
+	}
+	if len(table) == 0 {
 		return
 	}
 	want := map[string]string{}
-	for _, b := range sp.Bind {
+	tableNames := map[string]bool{}
+	for _, b := range table {
+		if kv := strings.SplitN(b, "=", 2); len(kv) == 2 {
+			tableNames[kv[1]] = true
+		}
+	}
+	for _, b := range table {
 		kv := strings.SplitN(b, "=", 2)
 		if len(kv) != 2 {
 			fail(token.Position{Filename: sp.File}, "spec.Bind entry %q", b)
@@ -1428,8 +1487,11 @@ func applyBind(fd *ast.FuncDecl, sp spec) {
 			continue
 		}
 		o := target[c]
-		if o == nil {
-			fail(token.Position{Filename: sp.File}, "spec.Bind of %s: no local variable is called %s and the function has none at canonical position %s", sp.Func, name, c)
+		if o == nil || tableNames[o.Name] {
+			// nothing at that position, or a variable that carries another name of the table (the positions have
+			// shifted: a local was added or removed): no renaming; the spec is read by name
+			delete(want, c)
+			continue
 		}
 		ast.Inspect(fd, func(n ast.Node) bool {
 			id, ok := n.(*ast.Ident)
@@ -1454,6 +1516,74 @@ func applyBind(fd *ast.FuncDecl, sp spec) {
 	for c, name := range want {
 		target[c].Name = name
 	}
+}
+
+// printBinds: see the -dump-binds flag
+func printBinds(repo string) {
+	fset := token.NewFileSet()
+	files := map[string]*ast.File{}
+	seen := map[string]bool{}
+	var keys []string
+	out := map[string][]string{}
+	for _, sp := range specs {
+		k := bindKey(sp)
+		if seen[k] {
+			continue
+		}
+		seen[k] = true
+		f, ok := files[sp.File]
+		if !ok {
+			var err error
+			f, err = parser.ParseFile(fset, filepath.Join(repo, sp.File), nil, 0)
+			if err != nil {
+				fmt.Fprintln(os.Stderr, err)
+				os.Exit(2)
+			}
+			IndexLocals(f)
+			files[sp.File] = f
+		}
+		fd := findFunc(f, sp)
+		if fd == nil {
+			continue
+		}
+		type ent struct {
+			pos  token.Pos
+			text string
+		}
+		var es []ent
+		done := map[*ast.Object]bool{}
+		ast.Inspect(fd, func(n ast.Node) bool {
+			if id, ok := n.(*ast.Ident); ok && id.Obj != nil && !astnormField[id] && !done[id.Obj] {
+				if c, ok := astnormCanon[id.Obj]; ok {
+					done[id.Obj] = true
+					es = append(es, ent{id.Obj.Pos(), c + "=" + id.Obj.Name})
+				}
+			}
+			return true
+		})
+		sort.Slice(es, func(i, j int) bool { return es[i].pos < es[j].pos })
+		for _, e := range es {
+			out[k] = append(out[k], e.text)
+		}
+		keys = append(keys, k)
+	}
+	sort.Strings(keys)
+	fmt.Println("// Code generated by `go2lean -dump-binds -repo <reference tree>`. DO NOT EDIT.")
+	fmt.Println("//")
+	fmt.Println("// The names of the local variables of every translated function in the reference tree, by canonical position")
+	fmt.Println("// (astnorm_gen.go). applyBind uses them to undo a maintainer's renaming of a local before translating, so that")
+	fmt.Println("// the generated Lean text (argument order of loop functions, binder names) does not depend on it.")
+	fmt.Println("package main")
+	fmt.Println()
+	fmt.Println("var bindTables = map[string][]string{")
+	for _, k := range keys {
+		q := make([]string, len(out[k]))
+		for i, e := range out[k] {
+			q[i] = strconv.Quote(e)
+		}
+		fmt.Printf("\t%s: {%s},\n", strconv.Quote(k), strings.Join(q, ", "))
+	}
+	fmt.Println("}")
 }
 
 func printCanon(repo, what string) {
@@ -1518,6 +1648,7 @@ func translate(fset *token.FileSet, f *ast.File, sp spec) []genFunc {
 		fmt.Fprintf(os.Stderr, "go2lean: %s: function %s (recv %q) not found\n", sp.File, sp.Func, sp.Recv)
 		os.Exit(2)
 	}
+	applyBind(fd, sp)
 	base := &tr{fset: fset, vars: map[string]Ty{}, outPtr: sp.OutPtr}
 	var params []string
 	if fd.Recv != nil && len(fd.Recv.List[0].Names) == 1 {
@@ -1628,9 +1759,14 @@ func main() {
 	repo := flag.String("repo", "/repo", "repository root (working tree)")
 	out := flag.String("out", "", "output directory for generated Lean modules")
 	canon := flag.String("canon", "", "debug: print function `file.go:Func` (path relative to the repository) under canonical local names and exit")
+	dumpBinds := flag.Bool("dump-binds", false, "print bind_gen.go (the names of the locals of every translated function in THIS tree, by canonical position) and exit; run it on the reference tree after an intended change of a translated function")
 	flag.Parse()
 	if *canon != "" {
 		printCanon(*repo, *canon)
+		return
+	}
+	if *dumpBinds {
+		printBinds(*repo)
 		return
 	}
 	if *out == "" {
